@@ -12,6 +12,8 @@ def anc1(ctx, lib, roles):
         return
     b = r["body"]
     n = 0
+    sites = fmtmodel.replace_sites(lib, b)
+    unbounded = set()
     for fl in r["leaves"]:
         sk, why = fmtmodel.parse_skeleton(fl)
         site = "%s|%s|alt=%s" % (b.path, ",".join("%s=%d" % (k, v) for k, v in sorted(fl.flags.items())), fl.alt)
@@ -19,27 +21,39 @@ def anc1(ctx, lib, roles):
             ctx.violation("ANC-1", (b.path, "skeleton"), "%s [settings %s]" % (why, fl.flags), b.loc())
             continue
         ns, ne = fl.flags.get("no_start_anchor"), fl.flags.get("no_end_anchor")
-        if ns is None or ne is None:
-            ctx.undecided("ANC-1", b.path, "a path does not test both anchor settings: %s" % fl.flags, b.loc())
-            continue
         bad = []
+        if ns is None:
+            bad.append("'^' is %s on a path that never tests the start-anchor setting: its presence does not depend on it" % ("emitted" if sk["caret"] else "omitted"))
+        if ne is None:
+            bad.append("'$' is %s on a path that never tests the end-anchor setting: its presence does not depend on it" % ("emitted" if sk["dollar"] else "omitted"))
+        if bad:
+            ctx.violation("ANC-1", (b.path, "anchors"), "; ".join(bad) + " [settings %s]" % fl.flags, b.loc())
+            continue
         if sk["caret"] != (not ns):
             bad.append("'^' is %s although the start anchor is %s" % ("emitted" if sk["caret"] else "missing", "disabled" if ns else "enabled"))
         if sk["dollar"] != (not ne):
             bad.append("'$' is %s although the end anchor is %s" % ("emitted" if sk["dollar"] else "missing", "disabled" if ne else "enabled"))
         # nothing after the skeleton may rewrite its characters
         skel_chars = set(fmtmodel.strip_sgr(sk["raw_pre"] + sk["raw_suf"]))
-        for callee, chars, rep in fmtmodel.wrapper_patterns(fl):
-            if callee.endswith("::replace"):
-                if chars is None:
-                    bad.append("a later str::replace has a non-constant pattern")
-                elif chars & skel_chars - {"\n"} or ("\n" in chars):
-                    bad.append("a later str::replace rewrites %r, which occurs in the emitted skeleton" % sorted(chars & (skel_chars | {"\n"})))
+        for rs in sites:
+            if rs["chars"] is None:
+                unbounded.add(rs["line"])
+                continue
+            hit = (set(rs["chars"]) & skel_chars) | ({"\n"} & set(rs["chars"]))
+            # a pass only matters on paths where its guards hold: approximate by the verbose flag
+            vg = [g for g in rs["guards"] if common.origin_config_field(g["origin"]) == roles.get("verbose")]
+            if vg and not fl.flags.get("verbose"):
+                continue
+            if hit:
+                bad.append("a later str::replace rewrites %r, which occurs in the emitted skeleton" % sorted(hit))
         if bad:
             ctx.violation("ANC-1", (b.path, "anchors"), "; ".join(bad) + " [settings %s]" % fl.flags, b.loc())
         else:
             n += 1
             ctx.ok("ANC-1", site, {"prefix": sk["raw_pre"], "suffix": sk["raw_suf"]}, b.loc())
+    for ln in sorted(unbounded):
+        ctx.undecided("ANC-1", b.path, "cannot bound which characters the str::replace at line %s rewrites (pattern is not a constant, a constant array or an element "
+                      "of a constant iterable)" % ln, b.loc(ln))
     ctx.floor("ANC-1", "abstract paths of RegExp::fmt", n, 48)
 
 
